@@ -84,11 +84,51 @@ def _one(spec, prop, base_seed, index, keep_events=False, tier="quick"):
     return cls, res
 
 
+def isolated(fn, *args):
+    """Run fn(*args) in a forked child and return its (picklable) result.  The calling process never executes
+    library code itself, so every chunk / replay starts from the same pristine process state: module-level caches,
+    leaked descriptors, cwd or monkey-patches left behind by one chunk cannot reach the next one."""
+    import pickle
+
+    r, w = os.pipe()
+    pid = os.fork()
+    if pid == 0:
+        try:
+            os.close(r)
+            faulthandler.dump_traceback_later(900, exit=True)
+            try:
+                res = ("ok", fn(*args))
+            except BaseException as e:  # noqa: BLE001
+                res = ("exc", f"{type(e).__name__}: {e}\n{traceback.format_exc()}")
+            try:
+                data = pickle.dumps(res)
+            except Exception as e:  # unpicklable result
+                data = pickle.dumps(("exc", f"unpicklable result: {e}"))
+            with os.fdopen(w, "wb") as f:
+                f.write(data)
+        finally:
+            os._exit(0)
+    os.close(w)
+    with os.fdopen(r, "rb") as f:
+        data = f.read()
+    os.waitpid(pid, 0)
+    if not data:
+        raise HarnessError("isolated child died without a result")
+    kind, val = pickle.loads(data)
+    if kind == "exc":
+        raise HarnessError(val)
+    return val
+
+
 def _work(prop, base_seed, indices, tier, want_samples):
+    if "spec" not in _WORKER:
+        _worker_init(prop)
+    return isolated(_work_chunk, prop, base_seed, indices, tier, want_samples)
+
+
+def _work_chunk(prop, base_seed, indices, tier, want_samples):
     faulthandler.dump_traceback_later(600, exit=True)
     try:
-        if "spec" not in _WORKER:
-            _worker_init(prop)
         spec = _WORKER["spec"]
         out = {
             "runs": 0, "steps": 0, "events": 0, "counters": {}, "nontrivial_digests": [], "states": [],
@@ -120,6 +160,7 @@ def _work(prop, base_seed, indices, tier, want_samples):
                 out["violations"].append({
                     "index": idx, "seed": res.seed, "scenario": cls.__name__, "config": res.config,
                     "steps": res.steps, "violation": res.violation,
+                    "chunk_before": [i for i in indices if i < idx],
                 })
         return out
     finally:
@@ -167,13 +208,33 @@ def scenario_by_name(spec, name):
     raise HarnessError(f"no scenario {name} in {spec.prop}")
 
 
-def replay_once(spec, rec, scratch):
+def replay_raw(spec, rec, scratch):
+    """Replay in THIS process: optional prefix runs first (earlier runs of the same chunk whose left-over process
+    state the violation depends on), then the run itself."""
     from . import seams
 
+    for pre in rec.get("prefix_runs") or []:
+        seams.reseed_global(pre.get("seed") or 0)
+        execute(scenario_by_name(spec, pre["scenario"]), seed=pre.get("seed"), config=pre["config"], steps=pre["steps"],
+                scratch=scratch)
     cls = scenario_by_name(spec, rec["scenario"])
     seams.reseed_global(rec.get("seed") or 0)
     return execute(cls, seed=rec.get("seed"), config=rec["config"], steps=rec["steps"], scratch=scratch,
                    keep_events=True)
+
+
+def replay_once(spec, rec, scratch):
+    """Replay in a forked child, so that consecutive replays (shrinking!) cannot influence each other."""
+    return isolated(replay_raw, spec, rec, scratch)
+
+
+def capture_prefix(spec, prop, base_seed, indices, tier, scratch):
+    """Re-execute the given run indices (generated mode) and return them as concrete replayable records."""
+    out = []
+    for idx in indices:
+        cls, res = _one(spec, prop, base_seed, idx, tier=tier)
+        out.append({"scenario": cls.__name__, "seed": res.seed, "index": idx, "config": res.config, "steps": res.steps})
+    return out
 
 
 def write_replay(spec, rec, res, path):
@@ -182,6 +243,10 @@ def write_replay(spec, rec, res, path):
         "config": res.config, "steps": res.steps, "violation": res.violation, "digest": res.digest,
         "note": "replay executes the listed steps; nothing is regenerated from the PRNG",
     }
+    if rec.get("prefix_runs"):
+        doc["prefix_runs"] = rec["prefix_runs"]
+        doc["note"] += ("; prefix_runs are earlier runs of the same process whose left-over state (e.g. a module-level "
+                        "cache) the violation needs - they are executed first, in the same process")
     os.makedirs(os.path.dirname(path), exist_ok=True)
     with open(path, "w") as f:
         json.dump(doc, f, indent=1, default=core._json_default)
@@ -200,7 +265,7 @@ def cmd_replay(prop, path, quiet=False):
         rec = json.load(f)
     scratch = seams.worker_scratch_base()
     try:
-        res = replay_once(spec, rec, scratch)
+        res = replay_raw(spec, rec, scratch)
     finally:
         import shutil
 
@@ -383,6 +448,11 @@ def cmd_check(prop, tier, base_seed, workers, runs_override=None, wall_cap=None,
                    "steps": v["steps"]}
             path = os.path.join(out_dir(), "replays", f"{prop}-{v['violation']['kind']}-{v['seed']:016x}.json")
             base = replay_once(spec, rec, _WORKER["scratch"])
+            if (base.violation is None or base.violation["kind"] != v["violation"]["kind"]) and v.get("chunk_before"):
+                # not reproducible alone: the violation needs process state left behind by earlier runs of its chunk
+                rec["prefix_runs"] = isolated(capture_prefix, spec, prop, base_seed, v["chunk_before"], tier,
+                                              _WORKER["scratch"])
+                base = replay_once(spec, rec, _WORKER["scratch"])
             if base.violation is None or base.violation["kind"] != v["violation"]["kind"]:
                 print(f"HARNESS-ERROR property={prop}: generated run index={v['index']} does not replay "
                       f"({v['violation']['kind']} -> {base.violation})", file=sys.stderr)
